@@ -1,5 +1,7 @@
 package vrt
 
+import "runtime"
+
 // Channel operations under the scheduler. Buffered channels use the native buffer (an operation is enabled
 // when it cannot block); unbuffered channels hand the value over through a side slot, the sender staying
 // blocked until a receiver has taken it. A send is a release, a receive an acquire of the channel's clock.
@@ -11,6 +13,9 @@ type chanState struct {
 	full   bool
 	taken  bool
 	val    interface{}
+	rwait  int // threads blocked in a plain receive on this (unbuffered) channel
+	// blocked selects with a send / receive case on this unbuffered channel
+	selSend, selRecv int
 }
 
 func (s *Sched) chanOf(ch interface{}) *chanState {
@@ -28,7 +33,9 @@ func (s *Sched) chanOf(ch interface{}) *chanState {
 // NoteClosed tells the scheduler that ch was closed natively (vctx does this for Done channels).
 func NoteClosed(ch interface{}) {
 	if s := Current(); s != nil {
-		s.chanOf(ch).closed = true
+		st := s.chanOf(chanKey(ch))
+		st.keep = ch
+		st.closed = true
 	}
 }
 
@@ -42,6 +49,7 @@ func Send[C ~chan T | ~chan<- T, T any](ch C, v T) {
 		return
 	}
 	st := s.chanOf(keyOfSend[C, T](ch))
+	st.keep = ch
 	if cap(ch) > 0 {
 		Point("chan.send", func() bool { return len(ch) < cap(ch) || st.closed })
 		st.o.Touch(1)
@@ -72,6 +80,7 @@ func Recv2[C ~chan T | ~<-chan T, T any](ch C) (T, bool) {
 		return zero, false
 	}
 	st := s.chanOf(keyOfRecv[C, T](ch))
+	st.keep = ch
 	if cap(ch) > 0 {
 		Point("chan.recv", func() bool { return len(ch) > 0 || st.closed })
 		st.o.Touch(2)
@@ -83,7 +92,9 @@ func Recv2[C ~chan T | ~<-chan T, T any](ch C) (T, bool) {
 			return zero, false
 		}
 	}
+	st.rwait++
 	Point("chan.recv", func() bool { return st.full || st.closed })
+	st.rwait--
 	st.o.Touch(2)
 	st.o.Acquire()
 	if st.full {
@@ -151,4 +162,116 @@ func ChanAcquire(ch interface{}) {
 	st.keep = ch
 	st.o.Touch(5)
 	st.o.Acquire()
+}
+
+// ---- select
+
+// SelCase is one communication alternative of a select statement.
+type SelCase struct {
+	st      *chanState
+	send    bool
+	unbuf   bool
+	isNil   bool
+	nativeN func() (length, capacity int)
+}
+
+func RecvCase[C ~chan T | ~<-chan T, T any](ch C) SelCase {
+	s := Current()
+	if ch == nil || s == nil {
+		return SelCase{isNil: true}
+	}
+	return SelCase{st: s.chanOf(keyOfRecv[C, T](ch)), unbuf: cap(ch) == 0, nativeN: func() (int, int) { return len(ch), cap(ch) }}
+}
+
+func SendCase[C ~chan T | ~chan<- T, T any](ch C) SelCase {
+	s := Current()
+	if ch == nil || s == nil {
+		return SelCase{isNil: true, send: true}
+	}
+	return SelCase{st: s.chanOf(keyOfSend[C, T](ch)), send: true, unbuf: cap(ch) == 0, nativeN: func() (int, int) { return len(ch), cap(ch) }}
+}
+
+func (c SelCase) ready() bool {
+	if c.isNil {
+		return false
+	}
+	if c.st.closed {
+		return true // a receive yields the zero value, a send panics: either way the case proceeds
+	}
+	switch {
+	case !c.send && c.unbuf:
+		return c.st.full
+	case !c.send:
+		n, _ := c.nativeN()
+		return n > 0
+	case c.unbuf:
+		// a send on an unbuffered channel proceeds only when a receiver is waiting for it
+		return c.st.rwait > 0 && !c.st.full
+	default:
+		n, k := c.nativeN()
+		return n < k
+	}
+}
+
+// Select models a select statement: it blocks until one alternative can proceed (never, without a default,
+// if all channels are nil), picks one of the ready alternatives (a choice point of the explorer when there is
+// more than one: Go picks pseudo-randomly) and returns its index; -1 stands for the default case. The
+// transformed code then performs the chosen operation with the ordinary Send / Recv, whose own scheduling
+// point is part of the same atomic step.
+func Select(hasDefault bool, cases ...SelCase) int {
+	s := Current()
+	if s == nil {
+		panic("vrt.Select outside the scheduler")
+	}
+	if s.teardown {
+		runtime.Goexit()
+	}
+	readyIdx := func() []int {
+		var r []int
+		for i, c := range cases {
+			if c.ready() {
+				r = append(r, i)
+			}
+		}
+		return r
+	}
+	if hasDefault {
+		Point("select", nil)
+		r := readyIdx()
+		if len(r) == 0 {
+			return -1
+		}
+		k := 0
+		if len(r) > 1 {
+			k = Choose("select", len(r))
+		}
+		s.cur.skipPoint = true
+		return r[k]
+	}
+	for _, c := range cases {
+		if c.unbuf && !c.isNil {
+			if c.send {
+				c.st.selSend++
+			} else {
+				c.st.selRecv++
+			}
+		}
+	}
+	Point("select", func() bool { return len(readyIdx()) > 0 })
+	for _, c := range cases {
+		if c.unbuf && !c.isNil {
+			if c.send {
+				c.st.selSend--
+			} else {
+				c.st.selRecv--
+			}
+		}
+	}
+	r := readyIdx()
+	k := 0
+	if len(r) > 1 {
+		k = Choose("select", len(r))
+	}
+	s.cur.skipPoint = true
+	return r[k]
 }
